@@ -202,6 +202,18 @@ def build(d, route="event", rng=None, lambda_backend=True, order=None, reuse=Fal
     """routes: event (Event objects), legacy (transition=/birth_death= lists where possible, else events),
        incremental (add_* calls), mixed (random per process)"""
     import pg
+    if d.get("index_style") and d["decl"] == "range" and not any(l is not None for l in (d.get("lims") or [])):
+        # a range-style declaration 'y1:n' may be addressed by position in every equation string: y[0] is y1, y[1] is y2, ...
+        import re, json as _json
+        ix = lambda txt: re.sub(r"\by(\d+)\b", lambda mo: "y[%d]" % (int(mo.group(1)) - 1), txt)
+        d = _json.loads(_json.dumps(d))
+        for e in d["events"]:
+            e["rate"] = ix(e["rate"])
+            for tr in e["trans"]:
+                tr["mag"] = ix(tr["mag"])
+        for o in d["odes"]:
+            o["eqn"] = ix(o["eqn"])
+        d["derived"] = [[k, ix(v)] for k, v in d["derived"]]
     S = d["states"]
     kw = dict(state=decl_states(d), param=list(d["params"]) if route != "legacy" or True else None)
     if d["derived"]:
